@@ -1,0 +1,32 @@
+//go:build verif
+
+package tarfs
+
+// Contracts for gocv (see /verif/DESIGN.md). Comment-only file.
+
+//@ package tarfs
+//@ import io "io"
+//@ import fs "io/fs"
+//@ import os "os"
+//@ import tar "archive/tar"
+//@
+//@ pure validPath(p string) bool
+//@ extern fs.ValidPath params name
+//@   ensures result == validPath(name)
+//@ extern os.Open params name
+//@   ensures result1 == nil ==> result0 != nil && alive(result0)
+//@   modifies alloc
+//@ extern (*os.File).Seek params f, offset, whence
+//@
+//@ ghost local tfIOFailed bool
+//@ func (*TarFS).Open
+//@   serves C07, C08
+//@   requires [wf] tfs != nil && (forall p string :: p in tfs.entries ==> tfs.entries[p] != nil && tfs.entries[p].header != nil)
+//@   entry set tfIOFailed = false
+//@   call os.Open set tfIOFailed = tfIOFailed || result1 != nil
+//@   call Seek set tfIOFailed = tfIOFailed || result1 != nil
+//@   call (*Reader).Next set tfIOFailed = tfIOFailed || result1 != nil
+//@   ensures [C07,C08:an-indexed-regular-entry-opens-unless-the-archive-cannot-be-read] validPath(name) && name in tfs.entries && tfs.entries[name].header.Typeflag == 48 && !tfIOFailed ==> openErr == nil && file != nil
+//@   ensures [C07,C08:only-indexed-entries-open] openErr == nil ==> validPath(name) && name in tfs.entries
+//@   modifies alloc, ghost.readerOver, ghost.atEOF, ghost.delivered
+//@   opt trust-frame
